@@ -21,6 +21,7 @@ ASSUMPTIONS = [
 ]
 FLOORS = {"quick": {"evaluations": 1500, "emit_compared": 1200, "accept_compared": 1200},
           "thorough": {"evaluations": 60000, "emit_compared": 50000, "accept_compared": 50000}}
+ANCHORS = ['Message.to_dict', 'Message._from_dict_init', '_dump_float', '_parse_float', 'camel_case']
 CONTRACTS = []
 
 
